@@ -623,3 +623,58 @@ class IntGen(object):
         """an expression for the query route: int-valued, or an f-string compared with the string column"""
         if self.rng.random() < 0.12: return self.fstr(depth)
         return self.expr(depth)
+
+
+class FragGen(object):
+    """Typed random trees inside the fragment of coq/Model/C04Eval.v (integers, strings, tuples), with an occasional type error;
+    used to validate that semantics against CPython."""
+    SCOPE = {'a': 2, 'b': 0, 'c': -3, 'd': 'Jo', 'e': '', 'g': (1, 'x'), 'h': ()}
+    BYTYPE = {'int': ['a', 'b', 'c'], 'str': ['d', 'e'], 'tup': ['g', 'h']}
+
+    def __init__(self, rng): self.rng = rng
+
+    def gen(self, ty, depth):
+        r = self.rng
+        if r.random() < 0.04: ty = r.choice(['int', 'str', 'tup'])          # a deliberate type confusion now and then
+        if depth <= 0 or r.random() < 0.2:
+            if r.random() < 0.6: return ('Name', r.choice(self.BYTYPE[ty]), [])
+            if ty == 'int': return ('Const', repr(r.choice([0, 1, 2, 7, 10])), [])
+            if ty == 'str': return ('Const', repr(r.choice(['', 'x', 'Jo', 'ab c'])), [])
+            return ('Tuple', None, [self.gen(r.choice(['int', 'str']), depth - 1) for _ in range(r.choice([0, 1, 2]))])
+        sub = lambda t=ty: self.gen(t, depth - 1)
+        anyt = lambda: r.choice(['int', 'str', 'tup'])
+        opts = ['add', 'ifexp', 'bool', 'index']
+        if ty == 'int': opts += ['sub', 'mult', 'usub', 'not', 'cmp', 'cmp']
+        if ty == 'tup': opts += ['tuple', 'tuple']
+        g = r.choice(opts)
+        if g == 'add': return ('Add', None, [sub(), sub()])
+        if g == 'sub': return ('Sub', None, [sub(), sub()])
+        if g == 'mult': return ('Mult', None, [sub(), sub()])
+        if g == 'usub': return ('USub', None, [sub()])
+        if g == 'not': return ('Not', None, [sub(anyt())])
+        if g == 'ifexp': return ('IfExp', None, [sub(), sub(anyt()), sub()])
+        if g == 'bool': return (r.choice(BOOL), None, [sub() for _ in range(r.choice([2, 3]))])
+        if g == 'tuple': return ('Tuple', None, [sub(anyt()) for _ in range(r.choice([0, 1, 2, 3]))])
+        if g == 'index':
+            if ty == 'str': return ('Subscript', None, [sub('str'), self.gen('int', depth - 1)])
+            elts = [sub(ty) for _ in range(r.choice([1, 2, 3]))]
+            return ('Subscript', None, [('Tuple', None, elts), self.gen('int', depth - 1)])
+        if g == 'cmp':
+            t = r.choice(['int', 'str']) if r.random() < 0.8 else 'tup'
+            n = r.choice([1, 1, 2])
+            ops = [r.choice(['Eq', 'NotEq'] if t == 'tup' else ['Eq', 'NotEq', 'Lt', 'LtE', 'Gt', 'GtE']) for _ in range(n)]
+            return ('Compare', ops, [sub(t) for _ in range(n + 1)])
+        raise ValueError(g)
+
+
+def coq_pyv(v):
+    if isinstance(v, bool): return '(VInt %d)' % int(v)
+    if isinstance(v, int): return '(VInt (%d))' % v
+    if isinstance(v, str): return '(VStr %s)' % cstr(v)
+    if isinstance(v, tuple): return '(VTuple [%s])' % ';'.join(coq_pyv(x) for x in v)
+    raise Unmodelled(type(v).__name__)
+
+
+def coq_env(scope):
+    arms = ' '.join('else if str_eqb s %s then Some %s' % (cstr(k), coq_pyv(v)) for k, v in sorted(scope.items()))
+    return '(fun s : str => if false then None %s else None)' % arms
